@@ -49,6 +49,33 @@ def _contains(outer_stmt, inner):
     return False
 
 
+def _none_reaches(f, use, arg):
+    """Can a tree that a transformation dropped (the variable tested `is None`) reach the statement `use` without
+    being re-assigned?  True / False / None (no None test on that variable exists at all)."""
+    cfg = f.cfg
+    if not isinstance(arg, ast.Name):
+        return None
+    v = arg.id
+    defs = frozenset(nid for (nid, _) in name_defs(f, v))
+    nones = [m.id for m in cfg.nodes if m.kind == 'assume' and norm_test(m.ast, m.pol) == ('none', v, True)]
+    if not nones:
+        return None
+    notnone = frozenset(m.id for m in cfg.nodes if m.kind == 'assume' and norm_test(m.ast, m.pol) == ('none', v, False))
+    for a in nones:
+        if use.id in cfg.reach(a, avoid=defs | notnone):
+            return True
+    # the value may also arrive untested: some definition from a transformation call reaches `use` avoiding every test
+    tests = frozenset(m.id for m in cfg.nodes if m.kind == 'assume' and norm_test(m.ast, m.pol)[0] == 'none'
+                      and norm_test(m.ast, m.pol)[1] == v)
+    for (nid, val) in name_defs(f, v):
+        if isinstance(val, ast.Call) and 'globals()' in unparse(val.func):
+            if use.id in cfg.reach(nid, avoid=(defs - {nid}) | tests):
+                # reaches the use without passing any None test ... unless the loop simply continues to the next
+                # transformation (the call itself is the next definition): paths that leave the loop normally matter
+                return True
+    return False
+
+
 def r_framefile(prog, tier):
     obs = []
     f = prog.func('transform', 'run')
@@ -84,9 +111,14 @@ def r_framefile(prog, tier):
         # innermost loop common to the with body
         wloops = [l for l in wn.loops if l not in w.loops]
         first_loop = wloops[0] if wloops else None
+        nested = any(isinstance(x, (ast.FunctionDef, ast.Lambda)) for x in walk_own(f.node))
         for (lst, what) in ((begins, 'begin'), (ends, 'end')):
             ok = False
             why = 'no `getattr(treeoutput, %s + \'_%s\')(%s, ...)` in this output file region' % (wd[2], what, S)
+            if not lst and (nested or [c_ for c_ in prog.opaque_calls(f, [S]) if _contains(w.ast, c_[1])
+                                        and _getattr_dispatch(c_[1]) is None]):
+                ok = None
+                why = 'the %s call may be made through a helper this rule does not follow' % what
             for (n, call, d) in lst:
                 same_fmt = d[2] == wd[2]
                 same_opts = _starstar(call) == _starstar(wcall)
@@ -101,9 +133,11 @@ def r_framefile(prog, tier):
                     ok = True
                     why = '`%s` %s the tree loop on every path through the file region, same options' \
                           % (unparse(call)[:70], 'precedes' if what == 'begin' else 'follows')
-                else:
+                elif not ok:
                     why = '`..._%s` call found but: same format %s, same options %s, outside the tree loop %s, ' \
                           'ordered w.r.t. the loop %s, on every path %s' % (what, same_fmt, same_opts, outside, order, every)
+                    if outside and order and every and not (same_fmt and same_opts):
+                        ok = None      # only a textual mismatch of the format / option expressions
             obs.append(Ob('R-FRAMEFILE', f.fq, 'output file opened at line %d gets the format\'s %s' %
                           (w.lineno, 'preamble before' if what == 'begin' else 'suffix after') + ' its trees', ok, why,
                           construct='frame:%s:%d' % (what, regions), line=w.lineno))
@@ -123,24 +157,32 @@ def r_framefile(prog, tier):
     if isinstance(size_arg, ast.Call) and unparse(size_arg.func) == 'len' and isinstance(size_arg.args[0], ast.Name):
         L = size_arg.args[0].id
     # the list L collects the transformed, surviving trees
-    appended = False
+    verdict, why = None, 'size argument `%s` not recognised' % (unparse(size_arg) if size_arg is not None else '?')
     if L:
-        for n in cfg.eval_nodes():
-            if n.kind == 'stmt' and unparse(n.ast).startswith('%s.append(' % L) and n.loops \
-                    and cfg.dominates(n.id, sp.id) is False:
-                pass
-            if n.kind == 'stmt' and unparse(n.ast).startswith('%s.append(' % L):
-                facts = [x[0] for x in facts_at(cfg, n.id)]
-                arg = unparse(n.ast.value.args[0])
-                if ('none', arg, False) in facts:
-                    appended = True
-    ok = L is not None and appended
+        apps = [n for n in cfg.eval_nodes() if n.kind == 'stmt' and isinstance(n.ast, ast.Expr)
+                and isinstance(n.ast.value, ast.Call) and unparse(n.ast.value.func) == '%s.append' % L and n.ast.value.args]
+        if apps:
+            res = [_none_reaches(f, a, a.ast.value.args[0]) for a in apps]
+            if any(r is True for r in res):
+                verdict, why = False, 'a tree dropped by a transformation (None) is appended to `%s`, so the size counts ' \
+                                      'trees that are never written' % L
+            elif all(r is False for r in res):
+                verdict, why = True, 'size = len(%s), the list that only receives trees that are not None' % L
+            else:
+                why = 'could not decide whether `%s` only receives surviving trees' % L
+    elif size_arg is not None:
+        # positive evidence: the size is a running count of trees read (incremented whether or not the tree survives)
+        for nm_ in [x.id for x in ast.walk(size_arg) if isinstance(x, ast.Name)]:
+            incs = [nid for (nid, v) in name_defs(f, nm_) if isinstance(v, tuple) and v[0] == 'aug' and cfg.nodes[nid].loops]
+            for nid in incs:
+                facts = [x[0] for x in facts_at(cfg, nid)]
+                if not any(fa[0] == 'none' for fa in facts):
+                    verdict, why = False, 'size `%s` comes from the counter `%s`, which counts every tree read, dropped ones ' \
+                                          'included' % (unparse(size_arg), nm_)
     obs.append(Ob('R-FRAMEFILE/ONCE', f.fq, 'the split specification is evaluated against the number of trees that '
-                  'will be written', ok, 'size = len(%s), the list of transformed trees that are not None' % L if ok else
-                  'size argument `%s` is not the length of the list of trees to write' %
-                  (unparse(size_arg) if size_arg is not None else '?'), construct='once-size', line=sp.lineno))
+                  'will be written', verdict, why, construct='once-size', line=sp.lineno))
     parts_name = unparse(sp.ast.targets[0])
-    ok_iter = False
+    ok_iter = None
     why = 'no single iterator over the tree list created outside the part loops'
     wr_split = None
     for w in withs:
@@ -173,12 +215,14 @@ def r_framefile(prog, tier):
                 shape = it_in in ('range(0, %s)' % psz, 'range(%s)' % psz) and \
                     unparse(outer.ast.iter) in ('enumerate(%s)' % parts_name, parts_name)
             every = inner is not None and cfg.in_every_iteration(inner.id, wn.id)
-            ok_iter = len(nexts) == 1 and shape and every
+            ok_iter = True if (len(nexts) == 1 and shape and every) else (False if (len(nexts) != 1 or (shape and not every)) else None)
             why = 'one iterator `%s = iter(%s)` outside the loops; one next() per tree slot of each part' % (itn, L) \
                 if ok_iter else 'iterator ok but: single next(): %s, loops `for part_size in parts / for _ in ' \
                 'range(part_size)`: %s, writer unconditional per slot: %s' % (len(nexts) == 1, shape, every)
+        elif len(defs) == 1 and defs[0].loops:
+            ok_iter, why = False, 'the iterator `%s` is created inside a loop: every part starts again at the first tree' % itn
     elif isinstance(a0, ast.Name):
-        why = 'trees are not taken from a single shared iterator (`%s`)' % unparse(a0)
+        why = 'trees are not taken from a single shared iterator (`%s`): not modelled' % unparse(a0)
     obs.append(Ob('R-FRAMEFILE/ONCE', f.fq, 'every tree goes to exactly one part, in the original order', ok_iter, why,
                   construct='once-iter', line=wn.lineno))
     # ---- both branches apply the transformations the same way
@@ -216,7 +260,9 @@ def r_framefile(prog, tier):
     same = norm[0] == norm[1]
     expected = norm[0] == [('apply', True, True, 'misc.options_dict(args.params)'), ('stop-when-dropped', True)]
     obs.append(Ob('R-FRAMEFILE/ONCE', f.fq, 'split and plain branch apply the transformations identically (each with '
-                  'the --params options, stopping when a tree is dropped)', same and expected,
+                  'the --params options, stopping when a tree is dropped)',
+                  True if (same and expected) else (None if any(d_[0] == 'other' for x_ in norm for d_ in x_)
+                                                    or any(len(x_) != 2 for x_ in norm) else False),
                   'both loops: tree = globals()[algorithm](tree, **options_dict(args.params)); break when None'
                   if same and expected else 'loops differ or are not the documented pipeline: %s vs %s' % (norm[0], norm[1]),
                   construct='once-trans', line=tl[0].lineno))
@@ -227,13 +273,8 @@ def r_framefile(prog, tier):
                 if isinstance(sub, ast.Call):
                     d = _getattr_dispatch(sub)
                     if d and d[0] == 'treeoutput' and d[1] == '' and sub.args and isinstance(sub.args[0], ast.Name):
-                        facts = [x[0] for x in facts_at(cfg, n.id)]
-                        ok = ('none', sub.args[0].id, False) in facts
-                        if not ok:
-                            # for ... else: the else branch runs only when the loop was not left by `break`
-                            in_else = any(isinstance(x, ast.For) and any(n.ast is y or any(n.ast is z for z in ast.walk(y))
-                                                                         for y in x.orelse) for x in ast.walk(f.node))
-                            ok = None if in_else else False
+                        r_ = _none_reaches(f, n, sub.args[0])
+                        ok = True if r_ is False else (False if r_ is True else None)
                         obs.append(Ob('R-FRAMEFILE/ONCE', f.fq, 'a tree dropped by a filter is not written', ok,
                                       'writer call guarded by `%s is not None`' % sub.args[0].id if ok else
                                       'writer may receive None', construct='once-none', line=n.lineno))
@@ -301,6 +342,28 @@ class _Arith(object):
                 return t
         return NNI
 
+    def ty_defs(self, e, at, depth):
+        ts = []
+        for (n, v) in name_defs(self.f, e.id):
+            if isinstance(v, ast.AST):
+                ts.append(self.ty(v, n, depth + 1))
+            else:
+                ts.append(UNK)
+        return self.join(ts) if ts else UNK
+
+    def from_spec(self, e, depth=0):
+        """Does the value come straight from a number written in the specification (int(<string>))?"""
+        if depth > 6:
+            return False
+        for x in ast.walk(e):
+            if isinstance(x, ast.Call) and unparse(x.func) == 'int' and x.args and self.ty(x.args[0], self.cfg.entry) == STR:
+                return True
+            if isinstance(x, ast.Name) and x.id != self.size:
+                for (n, v) in name_defs(self.f, x.id):
+                    if isinstance(v, ast.AST) and self.from_spec(v, depth + 1):
+                        return True
+        return False
+
     def ty(self, e, at, depth=0):
         if depth > 8:
             return UNK
@@ -317,6 +380,10 @@ class _Arith(object):
         if isinstance(e, ast.Name):
             if e.id == self.size:
                 return NNI
+            for (fa, _) in facts_at(self.cfg, at):
+                if fa[0] == 'cmp' and fa[3] == e.id and fa[1] == '0' and fa[2] in ('<', '<=', '=='):
+                    base = self.ty_defs(e, at, depth)
+                    return NNI if base in (INT, NNI) else base
             defs = name_defs(self.f, e.id)
             ts = []
             for (n, v) in defs:
@@ -380,11 +447,31 @@ class _Arith(object):
                 for (fa, _) in facts_at(self.cfg, at):
                     if fa[0] == 'cmp' and fa[2] in ('<', '<=') and fa[1] == unparse(e.right) and fa[3] == unparse(e.left):
                         return NNI
+                    if fa[0] == 'cmp' and fa[1] == '0' and fa[2] in ('<', '<=', '==') and fa[3] == unparse(e):
+                        return NNI
                 return INT
             return UNK
         if isinstance(e, ast.UnaryOp) and isinstance(e.op, ast.USub):
             return INT
         return UNK
+
+
+def _unguarded_difference(A, f, val, at):
+    """text of `a - b` if val is (a local bound once to) a difference and no fact at `at` mentions a, b or the local."""
+    from ..core import _unique_assign
+    e = val
+    name = None
+    if isinstance(e, ast.Name):
+        name = e.id
+        e = _unique_assign(f, e.id)
+    if not (isinstance(e, ast.BinOp) and isinstance(e.op, ast.Sub)):
+        return None
+    texts = [unparse(e.left), unparse(e.right), unparse(e)] + ([name] if name else [])
+    for (fa, _) in facts_at(f.cfg, at):
+        for t in fa[1:]:
+            if isinstance(t, str) and any(x in t for x in texts):
+                return None
+    return unparse(e)
 
 
 def r_splitarith(prog, tier):
@@ -435,14 +522,24 @@ def r_splitarith(prog, tier):
             for (fa, _) in facts_at(cfg, n.id):
                 if fa[0] in ('opaque', 'truthy') and '.isdigit()' in fa[1] and fa[2] is True:
                     validated = True
-        ok = t == NNI or (t == INT and validated)
+        ok = True if (t == NNI or (t == INT and validated)) else None
         if t == NNI:
             why = 'abstract value NonNegInt'
         elif t == INT and validated:
             why = 'integer read from the specification, negative values rejected right after (`%s[-1] < 0` raises)' % P
-        elif t == INT:
+        elif t == INT and A.from_spec(val) and not any(
+                isinstance(x_, ast.Compare) and any(isinstance(c_, ast.Constant) and c_.value == 0 for c_ in [x_.left] + x_.comparators)
+                for x_ in walk_own(f.node)):
+            ok = False
             why = 'an integer read from the specification may be negative and nothing rejects it'
+        elif t == INT and _unguarded_difference(A, f, val, n.id):
+            ok = False
+            why = 'the difference `%s` is stored although nothing on this path says which operand is larger: it can be ' \
+                  'negative' % _unguarded_difference(A, f, val, n.id)
+        elif t == INT:
+            why = 'integer whose sign this rule cannot establish'
         elif t == INEXACT:
+            ok = False
             why = 'computed through floating point (division, then floor/int): not exact for all sizes ' \
                   '(e.g. 29%% of 100 gives 28)'
         else:
@@ -451,10 +548,24 @@ def r_splitarith(prog, tier):
                       construct='split-%s:%s' % (what, unparse(val)), line=n.lineno))
         if what == 'add':
             idx = unparse(st.target.slice)
-            okf = idx == '%s.index(max(%s))' % (P, P)
+            okf = True if idx == '%s.index(max(%s))' % (P, P) else None
+            whyf = None
+            if okf is None and ('min(' in idx or idx in ('-1', '0', 'len(%s) - 1' % P)):
+                okf = False
+            if okf is None and idx.isidentifier():
+                # index found by a scan: `best = i` under `part > parts[best]` (first of ties) / `>=` (last of ties)
+                for (nid, v) in name_defs(f, idx):
+                    if isinstance(v, ast.AST) and cfg.nodes[nid].loops:
+                        for fa in [x[0] for x in facts_at(cfg, nid)]:
+                            if fa[0] == 'cmp' and '%s[%s]' % (P, idx) in (fa[1], fa[3]):
+                                if fa[2] == '<=' and fa[1] == '%s[%s]' % (P, idx):
+                                    okf, whyf = False, 'the scan replaces the candidate on `>=`: on a tie the LAST largest part gets ' \
+                                                       'the remainder, the documented one is the first'
+                                elif fa[2] == '<' and fa[1] == '%s[%s]' % (P, idx):
+                                    okf, whyf = True, 'scan keeps the first largest part (strict comparison)'
             obs.append(Ob('R-SPLITARITH', f.fq, 'without `rest` the remainder goes to the largest part, the first one '
-                          'on ties', okf, 'index %s' % idx if okf else 'remainder added at `%s`, not at %s.index(max(%s))'
-                          % (idx, P, P), construct='split-remainder:' + idx, line=n.lineno))
+                          'on ties', okf, whyf or ('index %s' % idx if okf else 'remainder added at `%s`, not at %s.index(max(%s))'
+                          % (idx, P, P)), construct='split-remainder:' + idx, line=n.lineno))
     if nstores < 4:
         raise Unrecognised('parse_split_specification: %d stores into the part list (at least 4 expected)' % nstores)
     raises = [n for n in cfg.eval_nodes() if n.kind == 'stmt' and isinstance(n.ast, ast.Raise)]
@@ -463,19 +574,30 @@ def r_splitarith(prog, tier):
         obs.append(Ob('R-SPLITARITH', f.fq, 'a bad specification is rejected with ValueError', ok, unparse(r.ast)[:60],
                       construct='split-raise:' + unparse(r.ast)[:40], line=r.lineno, nontrivial=False))
     # more trees demanded than exist -> raise
-    big = False
+    big = None
     for r in raises:
         facts = [x[0] for x in facts_at(cfg, r.id)]
         if any(fa[0] == 'cmp' and fa[2] == '<' and fa[1] == A.size for fa in facts):
             big = True
+        for fa in facts:
+            # size - sum < 0   /   size - sum <= 0 and != 0
+            if fa[0] == 'cmp' and fa[1].startswith(A.size + ' - ') and fa[3] == '0' and (
+                    fa[2] == '<' or (fa[2] == '<=' and ('cmp', fa[1], '!=', '0') in facts)):
+                big = True
+            if fa[0] == 'cmp' and fa[3].endswith(' - ' + A.size) and fa[1] == '0' and fa[2] == '<':
+                big = True
+    if big is None and not [r for r in raises if not r.loops]:
+        big = False           # positive: after the parts are read nothing raises at all
     obs.append(Ob('R-SPLITARITH', f.fq, 'a specification demanding more trees than exist is rejected', big,
                   'raise under `sum > size`' if big else 'no raise under `%s < <sum of parts>`' % A.size,
                   construct='split-toobig', line=f.node.lineno))
     # malformed part -> raise: the if/elif chain over part kinds ends in a raise
-    chain_ok = False
+    chain_ok = None
     for r in raises:
         if r.loops and len([a for a in cfg.assumes_at(r.id) if not a.pol]) >= 3:
             chain_ok = True
+    if chain_ok is None and not [r for r in raises if r.loops]:
+        chain_ok = False      # positive: nothing inside the loop over the parts raises
     obs.append(Ob('R-SPLITARITH', f.fq, 'an unknown kind of part is rejected', chain_ok,
                   'the chain %/#/rest ends in raise' if chain_ok else 'the chain over part kinds has no final raise',
                   construct='split-else', line=f.node.lineno))
@@ -729,7 +851,7 @@ def _writer_purity(prog):
         fresh = fresh_paths(prog, f)
         for d in data_events(prog, f):
             if d.kind != 'DATA' or d.keys is None:
-                obs.append(Ob('R-STATE/G6', f.fq, 'writer stores into node fields with literal keys', False,
+                obs.append(Ob('R-STATE/G6', f.fq, 'writer stores into node fields with literal keys', None,
                               '`%s`' % unparse(d.ast)[:60], construct='g6?:' + unparse(d.ast)[:60],
                               line=cfg.nodes[d.node].lineno))
                 continue
